@@ -650,6 +650,11 @@ def gen_sequence(rng, length):
                 emit({'op': 'cp', 'r': False, 'srcs': [src], 'dest': dest})
             else:
                 emit({'op': 'mv', 'srcs': [src], 'dest': dest})
+        elif r < 0.07 and fs != 'h' and [d for d in ds if d[-1].swapcase() != d[-1]]:
+            # an image directory into its own sub-tree, spelled in another case (FAT names are case-insensitive):
+            # must be refused and change nothing (the expected-state model refuses it too: it sees no such parent)
+            d = rng.choice([d for d in ds if d[-1].swapcase() != d[-1]])
+            emit({'op': 'mv', 'srcs': [P(fs, d)], 'dest': P(fs, d[:-1] + (d[-1].swapcase(), 'inner'))})
         elif r < 0.30:                                  # cp
             sfs = anyfs()
             sf, sd = entries(sfs, 'f'), entries(sfs, 'd')
